@@ -62,15 +62,16 @@ struct Obs {
 
 fn expected(root: &Path, files: &[String], spec: &WsSpec, f: &str, ftext: &str) -> MapSnap {
     let db = FixtureDatabase::new();
+    // F is an open document and is analysed first: following another file's import must never pick up F's on-disk text
+    // (nor the modules only that older text imports)
+    db.document_opened(&root.join(f));
+    db.analyze_file(root.join(f), ftext);
     for rf in files {
-        if rf == f {
-            db.analyze_file(root.join(rf), ftext);
-        } else if let Some(pf) = spec.file(rf) {
-            db.analyze_file(root.join(rf), &render(&pf.items).text);
+        if rf != f {
+            if let Some(pf) = spec.file(rf) {
+                db.analyze_file(root.join(rf), &render(&pf.items).text);
+            }
         }
-    }
-    if !files.iter().any(|x| x == f) {
-        db.analyze_file(root.join(f), ftext);
     }
     map_snap(&db, root)
 }
@@ -226,7 +227,8 @@ impl Scenario for ScanEdit {
                 let lines_w: Vec<&String> = want.definitions.iter().chain(want.usages.iter()).chain(want.file_definitions.iter()).chain(want.usage_by_fixture.iter()).chain(want.imports.iter()).collect();
                 let extra: Vec<&&String> = lines_a.iter().filter(|l| !lines_w.contains(l)).collect();
                 let missing: Vec<&&String> = lines_w.iter().filter(|l| !lines_a.contains(l)).collect();
-                extra.iter().chain(missing.iter()).all(|l| l.contains(frel.as_str()))
+                // (an index that differs only in multiplicities is not "records of two versions of F")
+                (!extra.is_empty() || !missing.is_empty()) && extra.iter().chain(missing.iter()).all(|l| l.contains(frel.as_str()))
             };
             // the known finding never loses what the editor sent: the scan's no-cleanup analysis only ever ADDS
             // on-disk records (or replaces usages/text); an index from which buffer definitions are missing
